@@ -372,7 +372,19 @@ func itemNode(it *itemT) sexp.Node {
 	return sexp.L(k, sexp.Int(it.parent), sexp.Bool(it.inner), res)
 }
 
+// after a few requests that never returned the remaining cases are not run (each would cost the
+// watchdog's full timeout); they are written as empty cases tagged gmp 0
+var hangs int
+
+const maxHangs = 3
+
 func runCase(roots []*fnode, gmp int, batchSpins [nBatch]int) sexp.Node {
+	if hangs >= maxHangs {
+		return sexp.T("case", sexp.T("gmp", sexp.Int(0)), sexp.T("query", sexp.Str("not run: earlier requests hung")),
+			sexp.T("items", sexp.L()), sexp.T("trace", sexp.L(sexp.T("end"))), sexp.T("delivered", sexp.L()),
+			sexp.T("resp", sexp.Str(""), sexp.Str("")), sexp.T("leak", sexp.Int(0)), sexp.T("hang", sexp.Bool(false)),
+			sexp.T("problems", sexp.L()))
+	}
 	b := &builder{conns: map[int]*connSpec{}}
 	b.alloc(roots, -1)
 	var sb strings.Builder
@@ -398,6 +410,7 @@ func runCase(roots []*fnode, gmp int, batchSpins [nBatch]int) sexp.Node {
 	case asyncResp = <-respCh:
 	case <-time.After(10 * time.Second):
 		hang = true
+		hangs++
 	}
 	r.finish(hang)
 	leak := 0
